@@ -531,7 +531,8 @@ def run_extra(ck, standalone=False):
     drv, derr = build_driver()
     if drv is None:
         ck.violation({"level": "fortran-compile", "oracle": "a Fortran program using the documented calls of the API compiles and links against "
-                      "cgns.mod / libcgns.a of the working tree", "compiler_output": derr[-2500:]})
+                      "cgns.mod / libcgns.a of the working tree", "compiler_output": derr[-2500:],
+                      "rows_failing_abi_ok": new_bad, "broken_obligations": broken})
         return
     exes = {"F": drv, "ref": ref}
     found_fail = False
